@@ -22,7 +22,7 @@
 (* nothing here looks at the order of visits inside a BFS level, at which  *)
 (* of two valid witnesses is kept, or at the exact depth off-by-one.       *)
 (***************************************************************************)
-EXTENDS Graph, HasDiscoveries
+EXTENDS Graph, HasDiscoveries, FiniteSetsExt
 
 Exhaustive(cfg) == cfg.strategy \in {"bfs", "dfs", "ondemand"}
 IsSim(cfg)      == cfg.strategy = "sim"
@@ -49,6 +49,8 @@ Complete(g, run) ==
 DistinctInits(g) == \A i, j \in DOMAIN g.init : i # j => g.init[i] # g.init[j]
 
 Orbit(g, s) == {t \in Reach(g) : RepOf(g, t) = RepOf(g, s)}
+
+SumOver(S, f) == FoldSet(LAMBDA x, acc : acc + f[x], 0, S)      \* (FiniteSetsExt; iterative, sets may be large)
 
 (* C12, timeouts.  A check with a timeout must stop within a bounded delay after expiry: the timeout thread polls
    once per second, a worker notices at the end of its current block; 4 s of slack for a loaded machine. *)
@@ -173,6 +175,12 @@ Checks(g, run) ==
                  \/ d.total >= cfg.target_states
                  \/ vn = reach
                  \/ Matches(cfg.finish, dn, g.props) \/ AllDiscovered(g, run)),
+    \* ... and the states counted towards the target are really generated in-boundary states: an upper bound of
+    \* what can have been generated is one per in-boundary initial state plus one per in-boundary successor entry
+    \* of every evaluated state
+    target_real |-> Chk(a_target /\ vn # reach /\ ~(Matches(cfg.finish, dn, g.props) \/ AllDiscovered(g, run)),
+                 Len(SelectSeq(g.init, LAMBDA s : InB(g, s)))
+                   + SumOver(vn, [v \in vn |-> Len(SelectSeq(SuccList(g, v), LAMBDA t : t # 0 /\ InB(g, t)))]) >= cfg.target_states),
     depth_max |-> Chk(cfg.target_depth > 0 /\ Len(vis) > 0,
                  \A i \in DOMAIN vis : Len(vis[i].path) <= cfg.target_depth),
     depth_min |-> Chk(a_dmin,
